@@ -1,3 +1,4 @@
+import Agd.Tie.TrC05
 import Agd.Lemmas.ECS
 import Agd.Lemmas.ECSHist
 import Agd.Tie.C05
@@ -1172,3 +1173,40 @@ example :
 
 
 end Agd.ECS
+
+/-! Translated-source tie (Agd/Tie/TrC05.lean). -/
+#print axioms Agd.Tie.TrC05.translation_complete
+#print axioms Agd.Tie.TrC05.respIsECSDependent_tr
+#print axioms Agd.Tie.TrC05.scope_zero_independent
+#print axioms Agd.Tie.TrC05.locFromReq_tr
+#print axioms Agd.Tie.TrC05.locFromReq_total
+#print axioms Agd.Tie.TrC05.ecsFam_source
+#print axioms Agd.Tie.TrC05.ecsFam_total
+#print axioms Agd.Tie.TrC05.ecsData_accepts
+#print axioms Agd.Tie.TrC05.locationData_lookup
+#print axioms Agd.Tie.TrC05.location_malformed
+#print axioms Agd.Tie.TrC05.location_wellformed
+#print axioms Agd.Tie.TrC05.formerr_on_bad_ecs
+#print axioms Agd.Tie.TrC05.itemFromCache_host_check
+#print axioms Agd.Tie.TrC05.get_plain_hit
+#print axioms Agd.Tie.TrC05.get_declined_never_ecs_cache
+#print axioms Agd.Tie.TrC05.get_ecs_second
+#print axioms Agd.Tie.TrC05.get_total
+#print axioms Agd.Tie.TrC05.toCacheKey_hashed
+#print axioms Agd.Tie.TrC05.set_uncacheable
+#print axioms Agd.Tie.TrC05.set_chooses_cache
+#print axioms Agd.Tie.TrC05.addrToNetIP_family
+#print axioms Agd.Tie.TrC05.setECS_option
+#print axioms Agd.Tie.TrC05.setECS_bad_family
+#print axioms Agd.Tie.TrC05.isDO_tr
+#print axioms Agd.Tie.TrC05.cached_response_echo
+#print axioms Agd.Tie.TrC05.upstream_bad_ecs
+#print axioms Agd.Tie.TrC05.upstream_independent_stored_under_zero
+#print axioms Agd.Tie.TrC05.upstream_dependent_stored_under_subnet
+#print axioms Agd.Tie.TrC05.upstream_response_echo
+#print axioms Agd.Tie.TrC05.declined_zero_prefix_upstream
+#print axioms Agd.Tie.TrC05.geo_subnet_upstream
+#print axioms Agd.Tie.TrC05.geo_error_stops
+#print axioms Agd.Tie.TrC05.cache_hit_no_upstream
+#print axioms Agd.Tie.TrC05.upstream_result_processed
+#print axioms Agd.Tie.TrC05.serveDNS_total
